@@ -192,7 +192,8 @@ def run(ctx):
                 ctx.count("universe-A-bundled-list-disagrees-with-pinned-rules")
         check_universe(ctx, "A", A, psl_a)
         # hosts that merely START like a special host, and hosts under an interior (non-rule) node of a longer private rule
-        D = build(["nip.io", "10.0.0.1.nip.io", "example.com", "localhost.example.com", "amazonaws.com", "aws.amazonaws.com", "docs.aws.amazonaws.com", "os.fedoraproject.org", "x.os.fedoraproject.org"],
+        D = build(["nip.io", "10.0.0.1.nip.io", "example.com", "localhost.example.com", "amazonaws.com", "aws.amazonaws.com", "docs.aws.amazonaws.com", "os.fedoraproject.org", "x.os.fedoraproject.org",
+                   "httpbin.org", "api.httpbin.org", "https.example.org", "my_shop.example.com", "github.io", "a.github.io", "b.a.github.io", "cafe.be", "dead.beef.cafe.be"],
                   [(), ("x",)])
         ctx.sample("universe-D", [D[0]["url"], D[-1]["url"]])
         check_universe(ctx, "D", D, psl)
